@@ -430,6 +430,9 @@ class Facts:
     def __init__(self, path):
         with open(path) as f:
             self.raw = json.load(f)
+        # helpers that do not exist on the pinned tree are spliced into their callers (rules/inline.py)
+        import inline
+        self.inline_report = inline.apply(self.raw)
         self.bodies = {}
         self.dups = defaultdict(list)
         self.promoted = {}
